@@ -584,7 +584,7 @@ func TestVerif_C31(t *testing.T) {
 	mc.Run(t, "C31", func(r *mc.R) {
 		maxInit := mc.Pick(r, 4, 5)
 		maxCost := mc.Pick(r, 3, 3)
-		maxDepth := mc.Pick(r, 3, 4)
+		maxDepth := mc.Pick(r, 3, 3)
 		r.Rule("explicit-state BFS: state = call stack of <=D frames of real vm.GasBudget values (+ledger model, frame entry values); " +
 			"initial budgets (E,S) in [0..N]^2; transitions on the top frame: Charge(e,s) e,s in 0..K (through Charge, charge, " +
 			"ChargeExecutionOnly/ChargeExecution/ChargeState, CanAfford), RefundState(r) r in 1..K with r <= live state gas of the tx, DrainExecution, " +
